@@ -27,6 +27,7 @@ def obs_opt(case):
             json.dump(c, f)
         env = dict(os.environ, PYTHONPATH=VERIF, PYTHONDONTWRITEBYTECODE="1")
         env.pop("PYTHONOPTIMIZE", None)
+        env["VERIF_CHILD"] = "1"
         env.update(case.get("env", {}))  # other hash seed / time zone / locale variables for the child
         p = subprocess.run([sys.executable] + list(case.get("flags", ["-O"])) + ["-m", "harness.drivers.optchild", cin, cout], cwd=VERIF, env=env,
                            capture_output=True, timeout=900)
